@@ -1,4 +1,7 @@
 import Pose.Model.SparseMM
+import Mathlib.Data.Matrix.Mul
+import Mathlib.Data.Real.Basic
+import Mathlib.Algebra.BigOperators.Fin
 import Mathlib.Algebra.BigOperators.Group.Finset.Basic
 import Mathlib.Algebra.BigOperators.Intervals
 import Mathlib.Data.Matrix.Basic
@@ -690,5 +693,61 @@ theorem denseOf_blockMul (A : Fin sm → Fin sn → Matrix (Fin dm) (Fin dn) R)
   ext ⟨i, r⟩ ⟨j, s⟩
   simp only [denseOf, Matrix.mul_apply, Matrix.sum_apply, Fintype.sum_prod_type]
 end denseBlocks
+
+section toDense
+open Matrix
+variable {dm dn dp : Nat}
+
+/-- `.to_dense()` of a block-CSR structure with `sm × sn` blocks of size `dm × dn` -/
+def denseBSR (sm sn : Nat) (crow col : Nat → Nat) (va : Nat → Matrix (Fin dm) (Fin dn) ℝ) :
+    Matrix (Fin sm × Fin dm) (Fin sn × Fin dn) ℝ :=
+  fun p q => getBlock 0 crow col va p.1.val q.1.val p.2 q.2
+
+/-- `.to_dense()` of a block-CSC structure with `sn × sp` blocks of size `dn × dp` -/
+def denseBSC (sn sp : Nat) (ccol row : Nat → Nat) (vb : Nat → Matrix (Fin dn) (Fin dp) ℝ) :
+    Matrix (Fin sn × Fin dn) (Fin sp × Fin dp) ℝ :=
+  fun p q => getBlock 0 ccol row vb q.1.val p.1.val p.2 q.2
+
+/-- **`bsr_bsc_matmul(A, B).to_dense() = A.to_dense() @ B.to_dense()`** as real matrices, for every block grid, every
+block size and every pair of well-formed sparsity patterns. -/
+theorem bsrBscMatmul_toDense (sm sn sp : Nat) (crow col ccol row : Nat → Nat)
+    (va : Nat → Matrix (Fin dm) (Fin dn) ℝ) (vb : Nat → Matrix (Fin dn) (Fin dp) ℝ)
+    (hA : WF crow col sm) (hB : WF ccol row sp)
+    (hcol : ∀ i, i < sm → ∀ k1, crow i ≤ k1 → k1 < crow (i+1) → col k1 < sn) :
+    let R := bsrBscMatmul (0 : Matrix (Fin dm) (Fin dp) ℝ) (· + ·) (fun x y => x * y) sm sp crow col va ccol row vb
+    denseBSR sm sp (fun t => R.1.getD t 0) (fun t => R.2.1.getD t 0) (fun t => R.2.2.getD t 0)
+      = denseBSR sm sn crow col va * denseBSC sn sp ccol row vb := by
+  intro R
+  ext ⟨i, a⟩ ⟨j, c⟩
+  have h := bsrBscMatmul_dense (fun (x : Matrix (Fin dm) (Fin dn) ℝ) (y : Matrix (Fin dn) (Fin dp) ℝ) => x * y) 0 0
+    (fun y => Matrix.zero_mul y) (fun x => Matrix.mul_zero x) crow col ccol row va vb sm sn sp hA hB hcol
+    i.val j.val i.isLt j.isLt
+  simp only [denseBSR, denseBSC, Matrix.mul_apply, Fintype.sum_prod_type]
+  rw [h, Matrix.sum_apply, Finset.sum_range]
+  apply Finset.sum_congr rfl
+  intro k _
+  rw [Matrix.mul_apply]
+
+/-- accepted arguments of `bsr_bsc_matmul` fit together: equal inner dimension, equal inner block size, and the
+block grid tiles the matrices exactly -/
+theorem bsrBscGuard_ok (m n n' p dm dn dn' dp sm sn sp : Nat)
+    (h : bsrBscGuard m n n' p dm dn dn' dp = .ok (sm, sn, sp)) :
+    n = n' ∧ dn = dn' ∧ sm * dm = m ∧ sn * dn = n ∧ sp * dp = p := by
+  unfold bsrBscGuard at h
+  split at h
+  · cases h
+  · split at h
+    · cases h
+    · split at h
+      · cases h
+      · rename_i h1 h2 h3
+        simp only [Except.ok.injEq, Prod.mk.injEq] at h
+        obtain ⟨rfl, rfl, rfl⟩ := h
+        push Not at h1 h2 h3
+        refine ⟨h1, h3, ?_, ?_, ?_⟩
+        · rw [Nat.mul_comm]; exact h2.1
+        · rw [Nat.mul_comm]; exact h2.2.1
+        · rw [Nat.mul_comm]; exact h2.2.2
+end toDense
 
 end PP.SparseMM
